@@ -92,6 +92,10 @@ def jobs(tier):
                       sig_prefix='uninit', deadline_s=250 if q else 1500))
     J.append(dict(module='harness.C10', func='assign_job', name='predict[N=3,K=2]', kwargs=dict(N=3, K=2, entry='predict'),
                   sig_prefix='uninit', deadline_s=250 if q else 1500))
+    # tpt/: results depend on the arguments of THIS call only - the same array objects analysed before with other contents
+    J.append(dict(module='harness.tptjobs', func='flux_job', name='tpt-fluxes[n=3,arrays re-used after an earlier analysis]',
+                  kwargs=dict(n=3, sources=[0], sinks=[2], reuse=True), sig_prefix='uninit', deadline_s=250 if q else 1500,
+                  timeout_ms=40000 if q else 300000, tol=1e-5))
     from harness import kernels
     J += kernels.jobs_for('C19', tier)
     return J
